@@ -43,9 +43,9 @@ def run(ctx, replay=None):
         return
 
     quick = ctx.tier == 'quick'
-    exhaustive = ['q', '122'] if quick else ['q', '112', '122', '123', '3', '12', '1111', '11111']
-    graph_cfgs = ['q'] if quick else ['q', '3', '12']
-    sim_cfgs = [('1111', 120, 16), ('112', 80, 14), ('122', 80, 14), ('11111', 80, 16), ('3', 20, 8)] if quick else \
+    exhaustive = ['q', '122', '12', '3'] if quick else ['q', '112', '122', '123', '3', '12', '1111', '11111']
+    graph_cfgs = ['q', '3', '12'] if quick else ['q', '3', '12']   # '3' and '12': total power divisible by 3 (exactly 2/3 is NOT a majority)
+    sim_cfgs = [('1111', 120, 16), ('112', 80, 14), ('122', 80, 14), ('11111', 80, 16), ('123', 80, 14), ('3', 20, 8)] if quick else \
                [('1111', 1500, 18), ('112', 800, 16), ('122', 800, 16), ('11111', 800, 18), ('123', 800, 16), ('12', 300, 12), ('3', 50, 8)]
     all_traces = []
     for name in exhaustive:
